@@ -62,6 +62,18 @@ fn bases(tier: Tier) -> Vec<Base> {
         }
     }
     v.push(Base { name: "corrupted".into(), bytes: Arc::new(bytes), stave: false });
+    // packets of 112 and 80 bytes: their end offsets (where the tool places the message about an incomplete packet)
+    // run through many leading hex digits incl. letters: 0x70, 0xC0, 0x130, 0x180, 0x1F0, ..., 0xA20, 0xA90, ...
+    {
+        let c = LinkCfg::ib(0, 5);
+        let sh = grammar::basic_hbf_shapes(&c);
+        let n = if tier.is_thorough() { 30 } else { 14 };
+        let mut pk = grammar::render_link(&c, &vec![sh[1].1.clone(); n]);
+        // two RDH sanity faults early in the stream: the message about the incomplete packet is never the only one
+        pk[1].packet.rdh.rdh1_reserved = 1;
+        pk[2].packet.rdh.rdh3_reserved = 0x0101;
+        v.push(Base { name: "offset-digits".into(), bytes: Arc::new(grammar::contiguous(&[pk]).bytes()), stave: false });
+    }
     v
 }
 
